@@ -81,13 +81,15 @@ class Check:
         for f in self.findings:
             (old if f['key'] in known else new).append(f)
         # discharged counts obligations that hold; known findings stay undischarged
-        os.makedirs(os.path.join(VERIF, 'evidence', 'replay'), exist_ok=True)
+        # development runs against a patched tree (tools/run_seed.sh) write their evidence elsewhere: evidence/ always describes /repo itself
+        EVID = os.environ.get('VERIF_EVIDENCE_DIR') or os.path.join(VERIF, 'evidence')
+        os.makedirs(os.path.join(EVID, 'replay'), exist_ok=True)
         lines = []
         for f in old:
             lines.append('KNOWN-FINDING: property=%s %s [%s] %s:%s' % (self.pid, f['msg'], f['key'], f['file'], f['line']))
         stale = [k for k in known if k not in {f['key'] for f in old}]
         for i, f in enumerate(new):
-            rp = os.path.join(VERIF, 'evidence', 'replay', '%s-%d.json' % (self.pid, i))
+            rp = os.path.join(EVID, 'replay', '%s-%d.json' % (self.pid, i))
             json.dump({'property': self.pid, 'finding': f, 'rules': dict(self.rules),
                        'rerun': './check %s --tier %s' % (self.pid, self.tier)}, open(rp, 'w'), indent=1)
             lines.append('FINDING %s: %s  at %s:%s  key=%s' % (f['rule'], f['msg'], f['file'], f['line'], f['key']))
@@ -123,7 +125,7 @@ class Check:
             'wall_s': round(time.time() - self.t0, 2),
             'violations': len(new),
         }
-        json.dump(ev, open(os.path.join(VERIF, 'evidence', self.pid + '.json'), 'w'), indent=1)
+        json.dump(ev, open(os.path.join(EVID, self.pid + '.json'), 'w'), indent=1)
         print('== %s (%s): %d obligations, %d discharged, %d known finding(s), %d new violation(s), %d anchor(s) lost; %s'
               % (self.pid, self.tier, self.obligations, self.discharged, len(old), len(new), len(self.lost),
                  ', '.join('%s=%s' % kv for kv in sorted(self.analysed.items()))))
